@@ -223,7 +223,9 @@ func generateConfig(r *rand.Rand, dumphook string, feedURLs []string) genConfig 
 		text += []string{"[network\n", "= 5\n", "key = \n", "[[feeds]]\nx = 1\n[feeds]\n", "a = \"unterminated\n", "[network]\n[network]\n", "x = 1 y = 2\n", "\x00\n"}[r.Intn(8)]
 		g.MustReject = "syntax"
 	case 1:
-		text += []string{"[extra]\nkey = 1\n", "unknown_top_level = true\n", "[network.extra]\nx = 1\n", "[style]\nfont = \"x\"\n", "[media.more]\nhook = []\n"}[r.Intn(5)]
+		text += []string{"[extra]\nkey = 1\n", "unknown_top_level = true\n", "[network.extra]\nx = 1\n", "[style]\nfont = \"x\"\n", "[media.more]\nhook = []\n",
+			// unknown tables without any key in them
+			"[extras]\n", "[network.proxy]\n", "extras = {}\n", "[medai]\n", "[style.fonts]\n", "[feeds.nested]\n"}[r.Intn(11)]
 		// appended tables may collide with existing ones (then it is a syntax error): rejected either way
 		g.MustReject = "unknown-key"
 	case 2:
